@@ -575,11 +575,64 @@ def r6_verbatim_only_on_request(w):
     return rs
 
 
-RULES = [r1_nest_amounts, r2_column_combinators, r3_unit_flows_only_to_nest, r4_writers, r5_no_literal_indentation, r6_verbatim_only_on_request]
+def r7_no_blank_after_hard_break(w):
+    """a blank emitted directly after a hard line break is indentation that no `nest` accounts for: one column, whatever the unit.  The flow helper
+    adds a space in front of a comment unless it is at the start of a line - a state it keeps itself (seed C12/6A: the flag was set before the call
+    that clears it).  Evaluated on <first child, Space, LineComment, Space+nl, LineComment, Space+nl, rest..> at every flow site, from the start."""
+    import grammar
+    import sites as sm
+    from kindflow import Node, Doc
+    r = RuleResult('C12.R7', 'flow sites: no blank directly after a hard line break (two line comments in a row after the first child)', floor=12)
+    se = sm.SiteEvaluator(w)
+    LC, NL, SP = Node('child', 'LineComment'), Node('child', 'Space', True), Node('child', 'Space', False)
+    for b, i, kinds in se.converters():
+        if not se.has_node_loop(b):
+            continue
+        for K in kinds:
+            if K not in grammar.SHAPES:
+                continue
+            shape = [e.split('@')[0] for e in grammar.SHAPES[K][-1]]
+            ks = [grammar.SLOT_DEFAULT.get(e, e) for e in shape]
+            if len(ks) < 2:
+                continue
+            seq = [Node('child', ks[0]), SP, LC, NL, LC, NL]
+            for k in ks[1:]:
+                seq += [Node('child', k), SP]
+            seq = seq[:-1] + ['END']
+            res = sm.evaluate_sequence(w, b, i, K, seq, from_start=True, later_loops_empty=True)
+            cons = {'converter': b.short.rsplit('::', 1)[-1], 'parent': K}
+            if res is None:
+                r.bad(cons, '%s|%s|not-evaluated' % (cons['converter'], K), 'sequence evaluation exceeded its bounds in %s' % b.short)
+                continue
+            bad = n = 0
+            for item in res:
+                if not (len(item) > 3 and item[3] and item[3][0] == 'ended' and isinstance(item[3][1], Doc)):
+                    continue
+                flat = [a for a in item[3][1].flat() if a[0] != 'nil']
+                if not any(a[0] == 'hardline' for a in flat):
+                    continue
+                n += 1
+                for x, y in zip(flat, flat[1:]):
+                    if x[0] == 'hardline' and y[0] == 'space':
+                        bad += 1
+                        break
+            if not n:
+                r.ok(cons, 'not printed by the flow helper on this sequence')
+            elif bad:
+                r.bad(cons, '%s|%s|blank-after-break' % (cons['converter'], K),
+                      '%s (%s node): after the hard line break that ends a line comment the flow helper emits a blank in front of the next comment on %d of %d paths: that '
+                      'line is indented by one column more than its nesting, not by a multiple of the unit' % (cons['converter'], K, bad, n), b.loc())
+            else:
+                r.ok(cons, 'nothing but the nesting indents the line after a line comment (%d paths)' % n)
+    return r
+
+
+RULES = [r1_nest_amounts, r2_column_combinators, r3_unit_flows_only_to_nest, r4_writers, r5_no_literal_indentation, r6_verbatim_only_on_request, r7_no_blank_after_hard_break]
 r5_no_literal_indentation.needs = ('core',)
 r1_nest_amounts.needs = ('core',)
 r2_column_combinators.needs = ('core',)
 r3_unit_flows_only_to_nest.needs = ('core',)
 r4_writers.needs = ("core",)
 r6_verbatim_only_on_request.needs = ("core",)
+r7_no_blank_after_hard_break.needs = ("core",)
 MATRIX_RULES = RULES
